@@ -102,7 +102,31 @@ fn base_source(t: &mut Tape) -> String {
         let re = regex::Regex::new(r"from (t[0-9])\b").unwrap();
         let nrows = 1 + t.choose(3);
         let cols = ["id", "a", "b", "k", "x"];
-        let data = match t.choose(3) {
+        let data = match t.choose(5) {
+            // rows that are longer / shorter than the column list, or than each other
+            3 => {
+                let rows: Vec<String> = (0..nrows + 1)
+                    .map(|_| {
+                        let n = [cols.len(), cols.len() + 1, cols.len() - 1, 1, 0][t.choose(5)];
+                        format!("[{}]", (0..n).map(|_| t.pick(CELLS).to_string()).collect::<Vec<_>>().join(", "))
+                    })
+                    .collect();
+                let ncols = [cols.len(), 1, 0][t.choose(3)];
+                format!("from_text format:json '{{\"columns\": [{}], \"data\": [{}]}}'", cols[..ncols].iter().map(|c| format!("\"{c}\"")).collect::<Vec<_>>().join(", "), rows.join(", "))
+            }
+            4 => {
+                let rows: Vec<String> = (0..nrows + 1)
+                    .map(|_| {
+                        let n = [cols.len(), cols.len() - 1, 2, 1][t.choose(4)];
+                        let mut fields: Vec<String> = cols[..n].iter().map(|c| format!("{c} = {}", t.pick(&["0", "-1", "7", "9223372036854775807", "0.1", "null", "\"x\"", "true"]))).collect();
+                        if t.chance(1, 3) {
+                            fields.push(format!("zextra = {}", t.choose(9)));
+                        }
+                        format!("{{{}}}", fields.join(", "))
+                    })
+                    .collect();
+                format!("[{}]", rows.join(", "))
+            }
             0 => {
                 let rows: Vec<String> = (0..nrows).map(|_| format!("{{{}}}", cols.iter().map(|c| format!("\"{c}\": {}", t.pick(CELLS))).collect::<Vec<_>>().join(", "))).collect();
                 format!("from_text format:json '[{}]'", rows.join(", "))
